@@ -418,30 +418,42 @@ func checkCompareCore(c *Check, w *World, tb *TB, pfx string, entry *ssa.Functio
 			}
 		}
 		c.Decide(okEq && nAcc > 0, pfx+".6", fn, "compare-result", "acceptance only where ConstantTimeCompare(...) == 1 holds", "a 'true' verdict is returned where the comparison result is not known to be 1 (or never)", w.InstrPos(h.Call))
-		// the length test in the comparing function
-		cf := h.Fn
+		// the length test: on the way from the entry point to the comparison (in the comparing function or in a
+		// caller on the chain), before the call that leads on
 		okLen := false
 		var lenWhy string
-		EachInstr(cf, func(in ssa.Instruction) {
-			iff, ok := in.(*ssa.If)
-			if !ok {
-				return
-			}
-			t := tb.Val(iff.Cond, h.Env)
-			if t.Op == "bin" && (t.Sym == "!=" || t.Sym == "==") {
-				for k := 0; k < 2; k++ {
-					if t.Args[k].String() == "len("+P+")" {
-						other := t.Args[1-k]
-						if !dominatesInstr(in, h.Call) {
-							lenWhy = "the length test does not precede the comparison"
-							return
+		for _, lv := range h.Levels {
+			lv := lv
+			EachInstr(lv.Fn, func(in ssa.Instruction) {
+				iff, ok := in.(*ssa.If)
+				if !ok {
+					return
+				}
+				t := tb.Val(iff.Cond, lv.Env)
+				if t.Op == "bin" && (t.Sym == "!=" || t.Sym == "==") {
+					for k := 0; k < 2; k++ {
+						if t.Args[k].String() == "len("+P+")" {
+							other := t.Args[1-k]
+							if !dominatesInstr(in, lv.Site) {
+								lenWhy = "the length test does not precede the comparison"
+								return
+							}
+							// the continuing edge must be the "equal" one
+							eq := iff.Block().Succs[0]
+							if t.Sym == "!=" {
+								eq = iff.Block().Succs[1]
+							}
+							if !(eq == lv.Site.Block() || eq.Dominates(lv.Site.Block())) {
+								lenWhy = "the comparison is not on the equal-length branch of the length test"
+								return
+							}
+							okLen = true
+							lenWhy = other.String()
 						}
-						okLen = true
-						lenWhy = other.String()
 					}
 				}
-			}
-		})
+			})
+		}
 		if !okLen {
 			c.Bad(pfx+".6", fn, "length-test", "no test len(code) == digits precedes the comparison ("+lenWhy+")", w.InstrPos(h.Call))
 		} else {
